@@ -46,4 +46,9 @@ fn main(){
       p("D12 insert_row usize::MAX len on empty", || { let mut t=TooDee::<u32>::default(); let _=catch_unwind(AssertUnwindSafe(|| t.insert_row(0, PanicIter{n:usize::MAX,at:1,i:0}))); (t.size(), t.data().len()) });
       p("D12 insert_row short iter", || { let mut t=TooDee::from_vec(3,3,(0u32..9).collect()); let _=catch_unwind(AssertUnwindSafe(|| t.insert_row(1, PanicIter{n:3,at:9,i:0}.take(2)))); (t.size(), t.data().len()) });
     }
+    // D14 (release builds): the two destination assertions of copy_within added with `+`
+    if all||which=="D14" {
+      p("D14 copy_within zero-area source to (usize::MAX,0) returns", || { let mut t=TooDee::from_vec(4,3,(0u32..12).collect()); t.copy_within(((0,0),(2,0)),(usize::MAX,0)); t.data().to_vec() });
+      p("D14 copy_within rows 0..2 to row usize::MAX: array after the panic", || { let mut t=TooDee::from_vec(4,3,(0u32..12).collect()); let _=catch_unwind(AssertUnwindSafe(|| t.copy_within(((0,0),(2,2)),(0,usize::MAX)))); t.data().to_vec() });
+    }
 }
